@@ -52,6 +52,8 @@ MODS_INPUTS = [
     "str 'unterminated",
     "  \n\n word a\n\n   word   b   \n",
     "rx 5x rx 77x begin b end begin c end",
+    "num 1 2.5 TRUE 7",  # the shared base-type rules (BOOL ...) keep the case sensitivity of *this* metamodel
+    "num 1 2.5 False 7 word TRUE word False",
 ]
 
 BAD_GRAMMARS = [
@@ -96,7 +98,7 @@ def gen_catalogue(seed):
     cfgs = []
     kinds = ["default", "fqn", "rrel", "postpone-once", "plain", "plain-single-mm", "plainuri", "fqnuri"]
     nitem = 0
-    for i in range(17):
+    for i in range(19):
         template = "items" if i % 3 != 2 or i >= 12 else "mods"
         cfg = {
             "template": template,
@@ -130,7 +132,12 @@ def gen_catalogue(seed):
             cfg["classes"] = [(c, t.pick(variants[:1] + variants[4:] if c == "Model" else variants, "variant"))
                               for c in names]
             cfg["procs"] = t.pick(["none", "record", "replace", "boom"], "procs")
-            if i >= 14:
+            if i >= 17:
+                # import provider with a search path: the directories searched are those of the provider's configuration
+                # and of the importing file, whatever was loaded before from other directories
+                cfg["provider"] = "plainuri-sp"
+                cfg["global_repository"] = i == 18
+            elif i >= 14:
                 # always in the catalogue, whatever the seed: an import provider with a repository shared by all loads
                 # and user classes whose finished objects differ most from objects under construction (a model cached
                 # by an earlier load is finished when a later load looks names up in it)
@@ -195,7 +202,20 @@ def gen_catalogue(seed):
         {"kind": "syntax-in-import", "path": "/sim/w3m/g.m", "text": 'import "bad.m" use ug : x'},
     ]
     lib["/sim/w3m/bad.m"] = "def x %"
-    return {"cfgs": cfgs, "items": items_inputs, "mods": mods_inputs, "multi": multi, "lib": lib}
+    # search-path inputs: "lib.m" next to the importing file wins, otherwise the one on the search path
+    lib["/sim/w3sp/proj1/lib.m"] = "def x = 1 def p1only"
+    lib["/sim/w3sp/shared/lib.m"] = "def x = 100 def sharedonly"
+    lib["/sim/w3sp/shared/extra.m"] = "def e = 7"
+    lib["/sim/w3sp/proj3/extra.m"] = "def e = 3"
+    multi_sp = [
+        {"kind": "sp-own-dir", "path": "/sim/w3sp/proj1/main.m", "text": 'import "lib.m" use u : x , p1only'},
+        {"kind": "sp-shared", "path": "/sim/w3sp/proj2/main.m", "text": 'import "lib.m" use u : x , sharedonly'},
+        {"kind": "sp-shared-dangling", "path": "/sim/w3sp/proj2/other.m", "text": 'import "lib.m" use u : p1only'},
+        {"kind": "sp-own-extra", "path": "/sim/w3sp/proj3/main.m", "text": 'import "extra.m" import "lib.m" use u : e , x'},
+        {"kind": "sp-shared-extra", "path": "/sim/w3sp/proj1/second.m", "text": 'import "extra.m" use u : e'},
+        {"kind": "sp-missing", "path": "/sim/w3sp/proj2/missing.m", "text": 'import "nolib.m" use u : x'},
+    ]
+    return {"cfgs": cfgs, "items": items_inputs, "mods": mods_inputs, "multi": multi, "multi_sp": multi_sp, "lib": lib}
 
 
 def build_metamodel(cfg):
@@ -230,6 +250,8 @@ def build_metamodel(cfg):
         mm.register_scope_providers({"*.*": sp.PlainNameImportURI()})
     elif prov == "fqnuri":
         mm.register_scope_providers({"*.*": sp.FQNImportURI()})
+    elif prov == "plainuri-sp":
+        mm.register_scope_providers({"*.*": sp.PlainNameImportURI(search_path=["/sim/w3sp/shared"])})
     procs = {}
     if cfg["procs"] in ("record", "replace", "boom"):
         procs["Use"] = lambda o: None
@@ -255,6 +277,8 @@ def build_metamodel(cfg):
 
 
 def input_list(cat, cfg):
+    if cfg.get("provider") == "plainuri-sp":
+        return cat["multi_sp"]
     if cfg.get("provider") in ("plainuri", "fqnuri"):
         return cat["multi"]
     return cat["items"] if cfg["template"] == "items" else cat["mods"]
